@@ -3,6 +3,7 @@ package main
 import (
 	"encoding/json"
 	"fmt"
+	"os"
 	"time"
 
 	"gripverif/internal/coq"
@@ -15,6 +16,7 @@ func init() {
 
 type travReq struct {
 	Mode   string  `json:"mode"` // literal | production
+	DeadlineS int  `json:"deadline_s,omitempty"`
 	Driver string  `json:"driver"`
 	Graph  tGraph  `json:"graph"`
 	Progs  [][]tStmt `json:"progs"`
@@ -32,13 +34,17 @@ func travWorker(raw json.RawMessage) interface{} {
 	}
 	defer env.close()
 	outs := make([]tOutcome, len(req.Progs))
+	dl := 20 * time.Second
+	if req.DeadlineS > 0 {
+		dl = time.Duration(req.DeadlineS) * time.Second
+	}
 	for i, p := range req.Progs {
 		if req.Mode == "production" {
-			outs[i] = runProduction(env.gi, p, 20*time.Second)
+			outs[i] = runProduction(env.gi, p, dl)
 		} else if req.Mode == "production-honour" {
-			outs[i] = runProduction(honourLoad{env.gi}, p, 20*time.Second)
+			outs[i] = runProduction(honourLoad{env.gi}, p, dl)
 		} else {
-			outs[i] = runLiteral(env.gi, p, 20*time.Second)
+			outs[i] = runLiteral(env.gi, p, dl)
 		}
 	}
 	return outs
@@ -140,6 +146,9 @@ func genC01Cases(ctx *Ctx) []c01Input {
 		}
 	}
 	for _, st := range starts {
+		if os.Getenv("C01_RANDOM_ONLY") != "" { // development knob: only the random part
+			break
+		}
 		rec([]tStmt{st}, depth)
 	}
 	ctx.Notes["exhaustive_prefix"] = fmt.Sprintf("%d programs: 4 starts x all sequences of <= %d steps over a %d-step alphabet on the fixed graph", len(inputs), depth, len(alpha))
@@ -215,6 +224,27 @@ func runTravCases(ctx *Ctx, inputs []c01Input, mode string) []tOutcome {
 		for k, o := range os {
 			outs[g.idx[k]] = o
 		}
+	}
+	// a stream that did not close while twelve workers were loading every core is slow, not stuck: it is believed
+	// only after the same program, alone in a fresh worker, had 120 s (at most 40 such re-runs; the rest stay as observed)
+	again := 0
+	for i, o := range outs {
+		if o.Rejected || o.Closed || o.Err != "" || again >= 40 {
+			continue
+		}
+		again++
+		in := inputs[i]
+		drv := in.Driver
+		if len(drv) > 7 && drv[len(drv)-7:] == "+honour" {
+			drv = drv[:len(drv)-7]
+		}
+		rq, _ := json.Marshal(travReq{Mode: mode, DeadlineS: 120, Driver: drv, Graph: in.Graph, Progs: [][]tStmt{in.Prog}})
+		r := runIsolated("trav", []json.RawMessage{rq}, 1, 4*time.Minute)
+		var o2 []tOutcome
+		if len(r) == 1 && !r[0].Crashed && !r[0].Timeout && json.Unmarshal(r[0].Out, &o2) == nil && len(o2) == 1 {
+			outs[i] = o2[0]
+		}
+		ctx.Notes["rerun_alone"] = fmt.Sprintf("%d programs whose stream had not closed under load were re-run alone", again)
 	}
 	return outs
 }
